@@ -9,6 +9,7 @@ import Driver.C06
 import Driver.C10
 import Driver.C11
 import Driver.C13
+import Driver.Sched
 import Driver.Pool
 import Driver.C18
 /-!
@@ -48,6 +49,7 @@ def dispatch (line : String) : String :=
     | "hname" => C02.hnameOp args
     | "mime" => C11.mimeOp args
     | "dkim" => C13.dkimOp args
+    | "sched" => Sched.schedOp args
     | "dkimbody" => C13.dkimbodyOp args
     | "dkimhdrs" => C13.dkimhdrsOp args
     | "mbox" => C17.mboxOp args
